@@ -127,6 +127,18 @@ def alpha_family(name, frame=False):
     return d
 
 
+def alpha_int(frame=False):
+    """User-alpha table whose pressure and pseudopressure columns are *integer typed* (legal input:
+    the documentation only asks for arrays)."""
+    p = np.arange(100, 10001, 50, dtype=np.int64)
+    d = {"pressure": p, "pseudopressure": (p.astype(np.int64) * 37 + 11), "alpha": 2.0 + p / 4000.0}
+    if frame:
+        import pandas as pd  # noqa: PLC0415
+
+        return pd.DataFrame(d)
+    return d
+
+
 def alpha_exact(name):
     """alpha as a function of *pressure* for the reference model (piecewise-linear table
     interpolation is exact for these piecewise-linear families up to the kink cell)."""
@@ -141,6 +153,7 @@ TABLES = {
     "A_fall": lambda **k: alpha_family("A_fall", **k), "A_kink": lambda **k: alpha_family("A_kink", **k),
     "A_kink1e3": lambda **k: alpha_family("A_kink1e3", **k),
     "A_jump": lambda **k: alpha_family("A_jump", **k),
+    "A_int": alpha_int,
 }
 
 
